@@ -19,7 +19,7 @@ MANIFEST = dict(
     text='TLC exhausts the atomic replacement design for two interleaved writers (exclusive tmp_N creation, buffered '
          'body writes, close, rename or unlink, Crash anywhere, one injected OSError, body exceptions): the destination '
          'is always old or new, a handled failure leaves old contents and no temp file, done means new, temp names are '
-         'never shared, writers terminate under fairness. TLC enumerates every schedule of the bounded model (single '
+         'never shared, writers terminate under fairness; a returned writer object may be entered again (rounds). TLC enumerates every schedule of the bounded model (single '
          'writer: every crash point, fault point and body exception; two writers: every interleaving of the directory '
          'operations with at most one abnormal event) and the harness executes each against the real AtomicWriter in '
          'bytes and text mode (SIGKILL of a forked child for crashes, OSError raised inside the wrapped io stack for '
@@ -36,7 +36,8 @@ MANIFEST = dict(
 EXPECTED_OPS = {('mkdir', 'ok'), ('mkdir', 'exists'), ('mkdir', 'fault'), ('open', 'ok'), ('open', 'exists'),
                 ('open', 'fault'), ('bcall', 'ok'), ('write', 'ok'), ('write', 'fault'), ('endbody', 'ok'),
                 ('bodyerr', 'ok'), ('close', 'ok'), ('close', 'fault'), ('replace', 'ok'), ('replace', 'fault'),
-                ('unlink', 'ok'), ('unlink', 'fault'), ('end', 'ok'), ('end', 'raised'), ('crash', 'ok')}
+                ('unlink', 'ok'), ('unlink', 'fault'), ('end', 'ok'), ('end', 'raised'), ('crash', 'ok'),
+                ('reenter', 'ok')}
 
 
 def sig_of(m: dict) -> dict:
@@ -98,12 +99,14 @@ def run(tier: str, seed: int) -> int:
         cov = {'states': 0, 'transitions': 0, 'models': {}}
         pool = cf.ThreadPoolExecutor(max_workers=8)
         # 1. the design: safety (two writers) and liveness under weak fairness, in the background
-        mc_cfgs = (['AtomicWrite_mc.cfg', 'AtomicWrite_live.cfg', 'AtomicWrite_live1.cfg'] if quick else
-                   ['AtomicWrite_mc_big.cfg', 'AtomicWrite_mc.cfg', 'AtomicWrite_live_big.cfg', 'AtomicWrite_live1.cfg'])
+        mc_cfgs = (['AtomicWrite_mc.cfg', 'AtomicWrite_mcr.cfg', 'AtomicWrite_live.cfg', 'AtomicWrite_live1.cfg'] if quick else
+                   ['AtomicWrite_mc_big.cfg', 'AtomicWrite_mcr_big.cfg', 'AtomicWrite_mc.cfg', 'AtomicWrite_mcr.cfg',
+                    'AtomicWrite_live_big.cfg', 'AtomicWrite_live1.cfg'])
         mc_futs = {c: pool.submit(run_tlc, 'AtomicWrite', c, workers=8, timeout=1500) for c in mc_cfgs}
         # 2. schedules enumerated by TLC
         f1 = pool.submit(_paths, 'AtomicWrite_paths1.cfg' if quick else 'AtomicWrite_paths1_big.cfg')
         f2 = pool.submit(_paths, 'AtomicWrite_paths2.cfg')
+        f2r = pool.submit(_paths, 'AtomicWrite_paths2r.cfg')     # one writer object used twice, overlapping the other
         # 3. reference runs of the large scenarios; TLC derives their injection points
         ref = work.path('ref.ndjson')
         core.run_driver('c12_driver.py', ['ref', ref], env={'VERIF_SEED': seed, 'VERIF_TIER': tier})
@@ -122,34 +125,42 @@ def run(tier: str, seed: int) -> int:
                            env={'VERIF_SEED': seed, 'VERIF_TIER': tier})
         ph = {'ref+points': round(time.time() - t0, 1)}
         paths1, r1 = f1.result()
-        dpool = cf.ThreadPoolExecutor(max_workers=4)
+        dpool = cf.ThreadPoolExecutor(max_workers=6)
         d1 = dpool.submit(_drive, work, 'p1', paths1, 'aw-bytes,aw-text', seed, tier, 3 if quick else 6)
         paths2, r2 = f2.result()
+        paths2r, r2r = f2r.result()
         ph['schedules'] = round(time.time() - t0, 1)
         rnd = random.Random(seed)
         model_ops: dict = {}
-        for p in paths1 + paths2:
+        for p in paths1 + paths2 + paths2r:
             for e in p['ev']:
                 k = f"{e['op']}:{e['res']}"
                 model_ops[k] = model_ops.get(k, 0) + 1
         missing = {f'{a}:{b}' for a, b in EXPECTED_OPS} - set(model_ops)
         if missing:
             raise MachineryError(f'vacuous model: steps never taken in any schedule: {sorted(missing)}')
-        cov['schedules_enumerated'] = {'one_writer': len(paths1), 'two_writers': len(paths2)}
-        for name, r in (('paths1', r1), ('paths2', r2)):
+        cov['schedules_enumerated'] = {'one_writer': len(paths1), 'two_writers': len(paths2),
+                                       'two_writers_one_reused': len(paths2r)}
+        for name, r in (('paths1', r1), ('paths2', r2), ('paths2r', r2r)):
             cov['models'][name] = {'generated': r.generated, 'distinct': r.distinct, 'depth': r.depth}
             cov['states'] += r.distinct
             cov['transitions'] += r.generated
         if quick:
-            sel2 = rnd.sample(paths2, min(len(paths2), 1200))
-            sel2t = rnd.sample(paths2, min(len(paths2), 300))
+            sel2 = rnd.sample(paths2, min(len(paths2), 1000))
+            sel2t = rnd.sample(paths2, min(len(paths2), 250))
+            selr = rnd.sample(paths2r, min(len(paths2r), 450))
+            selrt = rnd.sample(paths2r, min(len(paths2r), 150))
         else:
             sel2 = paths2
             sel2t = rnd.sample(paths2, min(len(paths2), 3000))
+            selr = paths2r
+            selrt = paths2r
         recs = [ref]
         d2 = dpool.submit(_drive, work, 'p2b', sel2, 'aw-bytes', seed, tier, 4 if quick else 10)
         d3 = dpool.submit(_drive, work, 'p2t', sel2t, 'aw-text', seed, tier, 1 if quick else 3)
-        recs += d1.result() + d2.result() + d3.result()
+        d4 = dpool.submit(_drive, work, 'prb', selr, 'aw-bytes', seed, tier, 2 if quick else 4)
+        d5 = dpool.submit(_drive, work, 'prt', selrt, 'aw-text', seed, tier, 1 if quick else 4)
+        recs += d1.result() + d2.result() + d3.result() + d4.result() + d5.result()
         dpool.shutdown()
         finj.result()
         recs.append(inj)
@@ -213,13 +224,15 @@ def run(tier: str, seed: int) -> int:
         cov['rule'] = ('every behaviour of the one-writer model (body of <= 2 writes quick / 3 thorough, stale temp files, '
                        'missing directory, one OSError, body exception, crash at every boundary) in bytes and text mode; '
                        'two writers: every interleaving of the directory-level operations with at most one abnormal event '
-                       '(seeded sample of 1200+300 in the quick tier, all in the thorough tier); BSP.save on a synthetic map '
+                       '(seeded sample of 1000+250 in the quick tier, all in the thorough tier); two writers where one writer OBJECT is '
+                       'used for two rounds that overlap the other writer in every order of the directory-level operations '
+                       '(no abnormal event; sample of 450+150 quick, all 3664 x 2 modes thorough); BSP.save on a synthetic map '
                        'and seeded large writes: every crash / fault / body-exception point TLC derives from the reference run')
         known, new = core.classify(PROP, [sig_of(m) for m in allm])
         if not new:
             # coverage handshake: one logged run per enumerated schedule / injection point
             want_runs = {'aw-bytes/path1': len(paths1), 'aw-text/path1': len(paths1), 'aw-bytes/path2': len(sel2),
-                         'aw-text/path2': len(sel2t)}
+                         'aw-text/path2': len(sel2t), 'aw-bytes/path2r': len(selr), 'aw-text/path2r': len(selrt)}
             got_inject = sum(v for k, v in kinds.items() if k.endswith('/inject'))
             for k, v in want_runs.items():
                 if kinds.get(k, 0) != v:
